@@ -6,6 +6,10 @@
   Model: Demeter/Deribit.lean (repaired code: /repo 4fb272a 1e18c04 sell checks the holding first, 409c53b
   negative deposits/withdrawals rejected).  Value = wallet(token) + exchange cash + Σ amount × round(mark), the
   valuation `get_market_balance` itself uses (C15_equity).  Exact arithmetic (`DCtx.exact`).
+
+  Finding D-8: the value theorems take `FrozenOK` (bids ≤ ROUND(mark) ≤ asks).  On the property's own raw quantifier
+  (`FrozenRaw`, bids ≤ mark ≤ asks) they hold under `MarkOnGrid` or `PricesOnGrid` (`…_ongrid_partial`, `…_pricegrid_partial`)
+  and fail without (`C03_deribit_fails_offgrid_mark`, `…_sell`); the non-negativity and over-redemption parts need neither.
 -/
 import Proofs.Lemmas.DeribitValue
 namespace Demeter
@@ -65,6 +69,21 @@ theorem frozen_norm {c : TokenCfg} {book : List Instr} (hf : FrozenOK c book) {i
   · intro l hl
     obtain ⟨l0, h0, hp⟩ := normSide_mem_price hl
     rw [← hp]; exact hf.bids_nonneg i0 hm l0 h0
+
+/-- the part of the frozen-data constraint that does not mention the mark: non-negative sizes and bid prices.  It is all that
+    "nothing becomes negative" and "no over-redemption" need — those hold for every mark, on or off the fee grid. -/
+structure BookSane (book : List Instr) : Prop where
+  inv : BookInv book
+  bids_nonneg : ∀ i ∈ book, ∀ l ∈ i.bids, 0 ≤ l.price
+
+theorem FrozenOK.sane {c : TokenCfg} {book : List Instr} (hf : FrozenOK c book) : BookSane book := ⟨hf.inv, hf.bids_nonneg⟩
+
+theorem sane_norm {book : List Instr} (hf : BookSane book) {i0 : Instr} (hm : i0 ∈ book) :
+    SideOk (normInstr DCtx.exact i0).bids ∧ (∀ l ∈ (normInstr DCtx.exact i0).bids, 0 ≤ l.price) := by
+  refine ⟨sideOk_normSide (hf.inv i0 hm).2, ?_⟩
+  intro l hl
+  obtain ⟨l0, h0, hp⟩ := normSide_mem_price hl
+  rw [← hp]; exact hf.bids_nonneg i0 hm l0 h0
 end Deribit
 
 /-- **a buy never creates value** (exact arithmetic, asks ≥ mark): the account value drops by the fee and
@@ -482,10 +501,10 @@ theorem tradeFee_le_premium (c : TokenCfg) (hc : 0 ≤ c.tradeFee) (a p : Rat) (
     _ ≤ p := by rw [hm]; linarith
 end Deribit
 
-/-- **no holding ever becomes negative** (exact arithmetic, bid prices ≥ 0): cash, every option amount and every
-    wallet balance stay non-negative through any operation, accepted or rejected -/
-theorem C03_deribit_nonneg_preserved (c : TokenCfg) (hc : 0 ≤ c.tradeFee) (s : DState) (op : Op) (hu : op.isUser = true)
-    (hf : FrozenOK c s.book) (hnn : NonNeg s) : NonNeg (step DCtx.exact c s op).2 := by
+/-- **no holding ever becomes negative** (exact arithmetic, bid prices ≥ 0; the mark plays no role): cash, every option amount
+    and every wallet balance stay non-negative through any operation, accepted or rejected -/
+theorem C03_deribit_nonneg_preserved_raw (c : TokenCfg) (hc : 0 ≤ c.tradeFee) (s : DState) (op : Op) (hu : op.isUser = true)
+    (hf : BookSane s.book) (hnn : NonNeg s) : NonNeg (step DCtx.exact c s op).2 := by
   rcases hstep : step DCtx.exact c s op with ⟨o, s'⟩
   cases o with
   | error e => rw [step_err hstep]; exact hnn
@@ -513,7 +532,7 @@ theorem C03_deribit_nonneg_preserved (c : TokenCfg) (hc : 0 ≤ c.tradeFee) (s :
       obtain ⟨_, ck, p, bids, hck, hget, hle, hbids, fills, prem, fee, hfills, hprem, hfee, _, hs'⟩ := sell_ok hstep
       obtain ⟨⟨ins0, hfind, hnorm⟩, _, _, _, _⟩ := checkTx_ok hck
       have hmem := findInstr_mem hfind
-      obtain ⟨_, hside, _, _, _, hbnn⟩ := frozen_norm hf hmem
+      obtain ⟨hside, hbnn⟩ := sane_norm hf hmem
       rw [← hnorm] at hside hbnn
       obtain ⟨f, hfl⟩ := availBids_filter hbids
       obtain ⟨_, hnn', hall⟩ := fills_props hck ck.ins.bids f (by simp [availSide, hbids, hfl]) hside
@@ -617,21 +636,194 @@ theorem C03_deribit_nonneg_preserved (c : TokenCfg) (hc : 0 ≤ c.tradeFee) (s :
         · split at hstep <;> (simp only [Prod.mk.injEq] at hstep; rw [← hstep.2]; exact hnn)
     | update => simp [Op.isUser] at hu
 
-/-- **no over-redemption**: an accepted sell is filled for exactly the (rounded) amount, which is at most the
-    holding; an accepted withdrawal is at most the cash -/
-theorem C03_deribit_no_over_redemption (c : TokenCfg) (s s' : DState) (r : Req) (fills : List Fill) (fee : Rat)
-    (hf : FrozenOK c s.book) (h : sell DCtx.exact c s r = (.ok (.trade fills fee), s')) :
+/-- the same under the hypothesis the sequence theorems carry (`FrozenOK`, bids ≤ round(mark) ≤ asks) -/
+theorem C03_deribit_nonneg_preserved (c : TokenCfg) (hc : 0 ≤ c.tradeFee) (s : DState) (op : Op) (hu : op.isUser = true)
+    (hf : FrozenOK c s.book) (hnn : NonNeg s) : NonNeg (step DCtx.exact c s op).2 :=
+  C03_deribit_nonneg_preserved_raw c hc s op hu hf.sane hnn
+
+/-- **no over-redemption** (the mark plays no role): an accepted sell is filled for exactly the (rounded) amount, which is at
+    most the holding; an accepted withdrawal is at most the cash (`C03_deribit_withdraw_conserves`) -/
+theorem C03_deribit_no_over_redemption_raw (c : TokenCfg) (s s' : DState) (r : Req) (fills : List Fill) (fee : Rat)
+    (hf : BookSane s.book) (h : sell DCtx.exact c s r = (.ok (.trade fills fee), s')) :
     ∃ p, AList.get? s.positions r.name = some p ∧ fillSum fills ≤ p.amount := by
   obtain ⟨_, ck, p, bids, hck, hget, hle, hbids, fills', _, _, hfills, _, _, hres, _⟩ := sell_ok h
   simp only [Res.trade.injEq] at hres
   obtain ⟨rfl, _⟩ := hres
   obtain ⟨f, hfl⟩ := availBids_filter hbids
   obtain ⟨ins0, hfind, hnorm⟩ := (checkTx_ok hck).1
-  have hside := (frozen_norm hf (findInstr_mem hfind)).2.1
+  have hside := (sane_norm hf (findInstr_mem hfind)).1
   rw [← hnorm] at hside
   obtain ⟨hsum, _, _⟩ := fills_props hck ck.ins.bids f (by simp [availSide, hbids, hfl]) hside
   rw [← hfl, ← hfills] at hsum
   exact ⟨p, hget, hsum ▸ hle⟩
+
+theorem C03_deribit_no_over_redemption (c : TokenCfg) (s s' : DState) (r : Req) (fills : List Fill) (fee : Rat)
+    (hf : FrozenOK c s.book) (h : sell DCtx.exact c s r = (.ok (.trade fills fee), s')) :
+    ∃ p, AList.get? s.positions r.name = some p ∧ fillSum fills ≤ p.amount :=
+  C03_deribit_no_over_redemption_raw c s s' r fills fee hf.sane h
+
+/-! ### the property's own quantifier: the RAW book, bids ≤ mark ≤ asks  (finding D-8)
+
+  `FrozenOK` compares the levels with `roundDec c.feeExp i.mark`, the mark as `get_market_balance` values a holding (rounded
+  half-up to the fee step, 1e-6 for ETH, 1e-8 for BTC).  The property text constrains the raw row: bid ≤ mark ≤ ask.  The two
+  differ when the mark is not a multiple of the fee step, and then the full statement is FALSE for the code:
+
+      -- FALSE (`C03_deribit_fails_offgrid_mark`, `C03_deribit_fails_offgrid_mark_sell`):
+      -- theorem C03_deribit_buy_no_value_created_raw (c) (hc : 0 ≤ c.tradeFee) (s s') (r) (res)
+      --     (hf : FrozenRaw s.book) (hp : PosInv s) (h : buy DCtx.exact c s r = (.ok res, s')) :
+      --     acctValue c s' ≤ acctValue c s
+      -- (and likewise for sell, step, sequence)
+
+  mark = ask = 0.0000016: the valuation books every contract at round(mark) = 0.000002 while the buy pays 0.0000016 plus a fee
+  capped at 12.5 % of the premium; buying 1000 turns 105 ETH into 105.0002 ETH.  Mirror image: mark = bid = 0.0000014 is valued
+  at 0.000001, selling 1000 held contracts turns 105.001 into 105.001225.  The gain per contract is below
+  |round(mark) − mark| ≤ half a fee step and needs round(mark) > 1.125 × price (buy), i.e. marks below about 4e-6.
+
+  What is proved at full strength for the raw quantifier: `…_ongrid_partial` below add the contract `MarkOnGrid` (every mark is
+  a multiple of the fee step, so the valuation uses the mark itself); "nothing negative" and "no over-redemption" need no
+  contract at all (`C03_deribit_nonneg_preserved_raw`, `C03_deribit_no_over_redemption_raw` above). -/
+
+namespace Deribit
+/-- the frozen market data exactly as the property constrains it: every bid ≤ the row's mark ≤ every ask (raw mark, nothing
+    rounded), plus the sanity of the data (non-negative sizes, marks and bid prices) -/
+structure FrozenRaw (book : List Instr) : Prop where
+  inv : BookInv book
+  mark_nonneg : ∀ i ∈ book, 0 ≤ i.mark
+  asks_ge : ∀ i ∈ book, ∀ l ∈ i.asks, i.mark ≤ l.price
+  bids_le : ∀ i ∈ book, ∀ l ∈ i.bids, l.price ≤ i.mark
+  bids_nonneg : ∀ i ∈ book, ∀ l ∈ i.bids, 0 ≤ l.price
+
+/-- grid contract (NOT in the property text): every mark is a multiple of the fee step, i.e. the valuation's
+    `round_decimal(mark_price, min_fee_decimal)` returns the mark unchanged -/
+def MarkOnGrid (c : TokenCfg) (book : List Instr) : Prop := ∀ i ∈ book, roundDec c.feeExp i.mark = i.mark
+
+theorem FrozenRaw.sane {book : List Instr} (hf : FrozenRaw book) : BookSane book := ⟨hf.inv, hf.bids_nonneg⟩
+
+/-- on the grid the raw constraint is the constraint the value theorems use -/
+theorem frozenOK_of_raw {c : TokenCfg} {book : List Instr} (hf : FrozenRaw book) (hg : MarkOnGrid c book) : FrozenOK c book :=
+  ⟨hf.inv, hf.mark_nonneg, fun i hi l hl => by rw [hg i hi]; exact hf.asks_ge i hi l hl,
+    fun i hi l hl => by rw [hg i hi]; exact hf.bids_le i hi l hl, hf.bids_nonneg⟩
+
+theorem roundHalfUpNat_spec (N d : Nat) (hd : 0 < d) :
+    2 * (roundHalfUpNat N d * d) ≤ 2 * N + d ∧ 2 * N < 2 * (roundHalfUpNat N d * d) + d := by
+  unfold roundHalfUpNat
+  have hN := Nat.div_add_mod' N d
+  have hr := Nat.mod_lt N hd
+  simp only []
+  split
+  · omega
+  · rw [Nat.add_mul]
+    omega
+
+/-- `quantHalfUp k x` (x ≥ 0) is `R / 10^k` for the natural number `R` with `R − 1/2 ≤ x·10^k < R + 1/2` -/
+theorem quantHalfUp_spec (k : Nat) {x : Rat} (hx : 0 ≤ x) :
+    ∃ R : Nat, quantHalfUp k x = (R : Rat) / ((pow10 k : Nat) : Rat) ∧
+      (R : Rat) - 1 / 2 ≤ x * ((pow10 k : Nat) : Rat) ∧ x * ((pow10 k : Nat) : Rat) < (R : Rat) + 1 / 2 := by
+  unfold quantHalfUp
+  have hn : ¬ x.num < 0 := not_lt.mpr (Rat.num_nonneg.mpr hx)
+  simp only [hn, if_false]
+  have hden : (0 : Rat) < (x.den : Rat) := by exact_mod_cast x.den_pos
+  set A : Nat := x.num.natAbs with hA
+  set D : Nat := x.den with hD
+  have hxe : (A : Rat) / (D : Rat) = x := by
+    have h2 : ((A : Nat) : Rat) = ((x.num : Int) : Rat) := by
+      rw [hA, ← Int.cast_natCast, Int.natAbs_of_nonneg (Rat.num_nonneg.mpr hx)]
+    rw [h2]; exact Rat.num_div_den x
+  obtain ⟨h1, h2⟩ := roundHalfUpNat_spec (A * pow10 k) D x.den_pos
+  set R := roundHalfUpNat (A * pow10 k) D
+  have h1' : 2 * ((R : Rat) * (D : Rat)) ≤ 2 * ((A : Rat) * ((pow10 k : Nat) : Rat)) + (D : Rat) := by exact_mod_cast h1
+  have h2' : 2 * ((A : Rat) * ((pow10 k : Nat) : Rat)) < 2 * ((R : Rat) * (D : Rat)) + (D : Rat) := by exact_mod_cast h2
+  have hxP : x * ((pow10 k : Nat) : Rat) * (D : Rat) = (A : Rat) * ((pow10 k : Nat) : Rat) := by
+    rw [← hxe]; field_simp
+  refine ⟨R, by rw [Rat.mkRat_eq_div]; push_cast; rfl, ?_, ?_⟩
+  · apply le_of_not_gt; intro hc
+    have := mul_lt_mul_of_pos_right hc hden
+    nlinarith
+  · apply lt_of_not_ge; intro hc
+    have := mul_le_mul_of_nonneg_right hc hden.le
+    nlinarith
+
+theorem quantHalfUp_mono (k : Nat) {x y : Rat} (hx : 0 ≤ x) (hxy : x ≤ y) : quantHalfUp k x ≤ quantHalfUp k y := by
+  obtain ⟨R, hR, hR1, _⟩ := quantHalfUp_spec k hx
+  obtain ⟨S, hS, _, hS2⟩ := quantHalfUp_spec k (le_trans hx hxy)
+  have hp : (0 : Rat) < ((pow10 k : Nat) : Rat) := by unfold pow10; positivity
+  rw [hR, hS]
+  apply div_le_div_of_nonneg_right _ hp.le
+  have h : (R : Rat) < (S : Rat) + 1 := by
+    have := mul_le_mul_of_nonneg_right hxy hp.le
+    linarith
+  have : R < S + 1 := by exact_mod_cast h
+  exact_mod_cast Nat.lt_succ_iff.mp this
+
+/-- `round_decimal` is monotone on non-negative numbers -/
+theorem roundDec_mono (e : Int) {x y : Rat} (hx : 0 ≤ x) (hxy : x ≤ y) : roundDec e x ≤ roundDec e y := by
+  unfold roundDec
+  split
+  · exact quantHalfUp_mono _ hx hxy
+  · have ht := tenPow_pos e
+    exact mul_le_mul_of_nonneg_right
+      (quantHalfUp_mono 0 (div_nonneg hx ht.le) (div_le_div_of_nonneg_right hxy ht.le)) ht.le
+
+/-- a second grid contract (NOT in the property text either, but what an exchange's tick size gives: Deribit quotes options in
+    ticks of 0.0001 / 0.0005, multiples of the fee step): every PRICE of the book is a multiple of the fee step; the mark may
+    be anything -/
+def PricesOnGrid (c : TokenCfg) (book : List Instr) : Prop :=
+  ∀ i ∈ book, (∀ l ∈ i.asks, roundDec c.feeExp l.price = l.price) ∧ (∀ l ∈ i.bids, roundDec c.feeExp l.price = l.price)
+
+/-- with the prices on the grid the raw constraint gives the constraint of the value theorems for EVERY mark: rounding is
+    monotone and leaves the prices where they are -/
+theorem frozenOK_of_raw_prices {c : TokenCfg} {book : List Instr} (hf : FrozenRaw book) (hg : PricesOnGrid c book) :
+    FrozenOK c book :=
+  ⟨hf.inv, hf.mark_nonneg,
+    fun i hi l hl => by rw [← (hg i hi).1 l hl]; exact roundDec_mono _ (hf.mark_nonneg i hi) (hf.asks_ge i hi l hl),
+    fun i hi l hl => by rw [← (hg i hi).2 l hl]; exact roundDec_mono _ (hf.bids_nonneg i hi l hl) (hf.bids_le i hi l hl),
+    hf.bids_nonneg⟩
+
+/-- and conversely: on the grid `FrozenOK` says nothing more than the raw constraint -/
+theorem frozenRaw_of_ok {c : TokenCfg} {book : List Instr} (hf : FrozenOK c book) (hg : MarkOnGrid c book) : FrozenRaw book :=
+  ⟨hf.inv, hf.mark_nonneg, fun i hi l hl => by have := hf.asks_ge i hi l hl; rwa [hg i hi] at this,
+    fun i hi l hl => by have := hf.bids_le i hi l hl; rwa [hg i hi] at this, hf.bids_nonneg⟩
+end Deribit
+
+/-- **a buy never creates value**, raw quantifier bids ≤ mark ≤ asks — partial: under the grid contract `MarkOnGrid`
+    (without it the statement is false, `C03_deribit_fails_offgrid_mark`) -/
+theorem C03_deribit_buy_no_value_created_ongrid_partial (c : TokenCfg) (hc : 0 ≤ c.tradeFee) (s s' : DState) (r : Req)
+    (res : Res) (hf : FrozenRaw s.book) (hg : MarkOnGrid c s.book) (hp : PosInv s)
+    (h : buy DCtx.exact c s r = (.ok res, s')) : acctValue c s' ≤ acctValue c s :=
+  C03_deribit_buy_no_value_created c hc s s' r res (frozenOK_of_raw hf hg) hp h
+
+/-- **a sell never creates value**, raw quantifier — partial: under `MarkOnGrid` (false without it,
+    `C03_deribit_fails_offgrid_mark_sell`) -/
+theorem C03_deribit_sell_no_value_created_ongrid_partial (c : TokenCfg) (hc : 0 ≤ c.tradeFee) (s s' : DState) (r : Req)
+    (res : Res) (hf : FrozenRaw s.book) (hg : MarkOnGrid c s.book) (hp : PosInv s)
+    (h : sell DCtx.exact c s r = (.ok res, s')) : acctValue c s' ≤ acctValue c s :=
+  C03_deribit_sell_no_value_created c hc s s' r res (frozenOK_of_raw hf hg) hp h
+
+/-- **one operation, accepted or rejected, creates no value beyond the deposit dust**, raw quantifier — partial: under `MarkOnGrid` -/
+theorem C03_deribit_step_no_value_created_ongrid_partial (c : TokenCfg) (hc : 0 ≤ c.tradeFee) (s : DState) (op : Op)
+    (hu : op.isUser = true) (hf : FrozenRaw s.book) (hg : MarkOnGrid c s.book) (hp : PosInv s) :
+    acctValue c (step DCtx.exact c s op).2 ≤ acctValue c s + dustBound c s [op] :=
+  C03_deribit_step_no_value_created c hc s op hu (frozenOK_of_raw hf hg) hp
+
+/-- **no sequence of operations creates value**, raw quantifier — partial: under `MarkOnGrid` at the start (marks do not move
+    along the sequence, `frozenOK_step`) -/
+theorem C03_deribit_sequence_no_value_created_ongrid_partial (c : TokenCfg) (hc : 0 ≤ c.tradeFee) (ops : List Op) (s : DState)
+    (hu : ∀ o ∈ ops, o.isUser = true) (hf : FrozenRaw s.book) (hg : MarkOnGrid c s.book) (hn : NamesNodup s.book)
+    (hp : PosInv s) : acctValue c (runOps DCtx.exact c s ops) ≤ acctValue c s + dustBound c s ops :=
+  C03_deribit_sequence_no_value_created c hc ops s hu (frozenOK_of_raw hf hg) hn hp
+
+/-- **no sequence of operations creates value**, raw quantifier, any marks — partial: under the tick-size contract
+    `PricesOnGrid` (every book price a multiple of the fee step).  The D-8 witnesses need a price off the fee grid. -/
+theorem C03_deribit_sequence_no_value_created_pricegrid_partial (c : TokenCfg) (hc : 0 ≤ c.tradeFee) (ops : List Op) (s : DState)
+    (hu : ∀ o ∈ ops, o.isUser = true) (hf : FrozenRaw s.book) (hg : PricesOnGrid c s.book) (hn : NamesNodup s.book)
+    (hp : PosInv s) : acctValue c (runOps DCtx.exact c s ops) ≤ acctValue c s + dustBound c s ops :=
+  C03_deribit_sequence_no_value_created c hc ops s hu (frozenOK_of_raw_prices hf hg) hn hp
+
+/-- one operation (accepted or rejected), raw quantifier, any marks — partial: under `PricesOnGrid` -/
+theorem C03_deribit_step_no_value_created_pricegrid_partial (c : TokenCfg) (hc : 0 ≤ c.tradeFee) (s : DState) (op : Op)
+    (hu : op.isUser = true) (hf : FrozenRaw s.book) (hg : PricesOnGrid c s.book) (hp : PosInv s) :
+    acctValue c (step DCtx.exact c s op).2 ≤ acctValue c s + dustBound c s [op] :=
+  C03_deribit_step_no_value_created c hc s op hu (frozenOK_of_raw_prices hf hg) hp
 
 /-! ### non-vacuity -/
 
@@ -645,6 +837,19 @@ def c03State : DState :=
     cache := none, flagOpen := true, now := 360, price := 165194 / 100, priceDec := false }
 def c03Buy (a : Rat) : Op := .buy { name := "ETH-22SEP23-1650-C", amount := a, priceTok := none, priceUsd := none, mult := none }
 def c03Sell (a : Rat) : Op := .sell { name := "ETH-22SEP23-1650-C", amount := a, priceTok := none, priceUsd := none, mult := none }
+/-- D-8: a mark off the 1e-6 fee grid that rounds UP (0.0000016 → 0.000002), the best ask on the mark -/
+def c03OffInstr : Instr :=
+  { c03Instr with mark := 16 / 10000000, asks := [⟨16 / 10000000, 5000, false⟩], bids := [⟨1 / 1000000, 50, false⟩] }
+def c03OffState : DState := { c03State with cash := 105, book := [c03OffInstr], wallet := [("ETH", 0)] }
+/-- D-8, sell side: a mark that rounds DOWN (0.0000014 → 0.000001), the best bid on the mark, 1000 contracts held -/
+def c03OffSellInstr : Instr :=
+  { c03Instr with mark := 14 / 10000000, asks := [⟨2 / 1000000, 50, false⟩], bids := [⟨14 / 10000000, 5000, false⟩] }
+def c03OffPos : Position :=
+  { name := "ETH-22SEP23-1650-C", expiry := 30000, strike := 1650, kind := .call, amount := 1000, avgBuy := 3 / 100,
+    buyAmt := 1000, avgSell := 0, sellAmt := 0 }
+def c03OffSellState : DState :=
+  { c03State with
+    cash := 105, book := [c03OffSellInstr], wallet := [("ETH", 0)], positions := [("ETH-22SEP23-1650-C", c03OffPos)] }
 end Deribit
 
 section
@@ -667,6 +872,115 @@ example : acctValue ethCfg (runOps DCtx.exact ethCfg c03State [c03Buy 700, c03Se
     acctValue ethCfg c03State := by decide +kernel
 example : ¬ acctValue ethCfg c03State ≤ acctValue ethCfg (runOps DCtx.exact ethCfg c03State [c03Buy 700, c03Sell 600]) := by
   decide +kernel
+-- the raw constraint and the grid contract hold on that state (mark 0.0287 is a multiple of 1e-6)
+example : FrozenRaw c03State.book := by
+  refine ⟨?_, ?_, ?_, ?_, ?_⟩ <;> intro i hi <;> simp only [c03State, List.mem_singleton] at hi <;> subst hi
+  · refine ⟨?_, ?_⟩ <;>
+      (intro l hl; simp only [c03Instr, List.mem_cons, List.not_mem_nil, or_false] at hl; rcases hl with rfl | rfl <;> norm_num)
+  · simp [c03Instr]; norm_num
+  all_goals
+    intro l hl; simp only [c03Instr, List.mem_cons, List.not_mem_nil, or_false] at hl
+    rcases hl with rfl | rfl <;> simp only [c03Instr] <;> norm_num
+example : MarkOnGrid ethCfg c03State.book := by
+  intro i hi; simp only [c03State, List.mem_singleton] at hi; subst hi; decide +kernel
+-- a mark OFF the grid (0.0287004) between prices on the grid: raw constraint and `PricesOnGrid` hold, `MarkOnGrid` does not
+example : FrozenRaw [{ c03Instr with mark := 287004 / 10000000 }] ∧ PricesOnGrid ethCfg [{ c03Instr with mark := 287004 / 10000000 }] ∧
+    ¬ MarkOnGrid ethCfg [{ c03Instr with mark := 287004 / 10000000 }] := by
+  refine ⟨⟨?_, ?_, ?_, ?_, ?_⟩, ?_, ?_⟩
+  · intro i hi; simp only [List.mem_singleton] at hi; subst hi
+    refine ⟨?_, ?_⟩ <;>
+      (intro l hl; simp only [c03Instr, List.mem_cons, List.not_mem_nil, or_false] at hl; rcases hl with rfl | rfl <;> norm_num)
+  · intro i hi; simp only [List.mem_singleton] at hi; subst hi; norm_num
+  · intro i hi; simp only [List.mem_singleton] at hi; subst hi
+    intro l hl; simp only [c03Instr, List.mem_cons, List.not_mem_nil, or_false] at hl; rcases hl with rfl | rfl <;> norm_num
+  · intro i hi; simp only [List.mem_singleton] at hi; subst hi
+    intro l hl; simp only [c03Instr, List.mem_cons, List.not_mem_nil, or_false] at hl; rcases hl with rfl | rfl <;> norm_num
+  · intro i hi; simp only [List.mem_singleton] at hi; subst hi
+    intro l hl; simp only [c03Instr, List.mem_cons, List.not_mem_nil, or_false] at hl; rcases hl with rfl | rfl <;> norm_num
+  · intro i hi; simp only [List.mem_singleton] at hi; subst hi
+    refine ⟨?_, ?_⟩ <;>
+      (intro l hl; simp only [c03Instr, List.mem_cons, List.not_mem_nil, or_false] at hl; rcases hl with rfl | rfl <;> decide +kernel)
+  · intro h
+    exact absurd (h _ List.mem_cons_self) (by decide +kernel)
+example : BookSane c03State.book ∧ BookSane c03OffState.book := by
+  refine ⟨⟨?_, ?_⟩, ⟨?_, ?_⟩⟩ <;> intro i hi <;> simp only [c03State, c03OffState, List.mem_singleton] at hi <;> subst hi
+  · refine ⟨?_, ?_⟩ <;>
+      (intro l hl; simp only [c03Instr, List.mem_cons, List.not_mem_nil, or_false] at hl; rcases hl with rfl | rfl <;> norm_num)
+  · intro l hl; simp only [c03Instr, List.mem_cons, List.not_mem_nil, or_false] at hl; rcases hl with rfl | rfl <;> norm_num
+  · refine ⟨?_, ?_⟩ <;>
+      (intro l hl; simp only [c03OffInstr, List.mem_cons, List.not_mem_nil, or_false] at hl; subst hl; norm_num)
+  · intro l hl; simp only [c03OffInstr, List.mem_cons, List.not_mem_nil, or_false] at hl; subst hl; norm_num
+end
+
+/-! ### D-8: the raw quantifier without the grid contract is violated (kernel-checked witnesses) -/
+
+section
+open Deribit
+
+theorem Deribit.c03Off_frozenRaw : FrozenRaw c03OffState.book ∧ FrozenRaw c03OffSellState.book := by
+  refine ⟨⟨?_, ?_, ?_, ?_, ?_⟩, ⟨?_, ?_, ?_, ?_, ?_⟩⟩ <;> intro i hi <;>
+    simp only [c03OffState, c03OffSellState, List.mem_singleton] at hi <;> subst hi
+  · refine ⟨?_, ?_⟩ <;> (intro l hl; simp only [c03OffInstr, List.mem_cons, List.not_mem_nil, or_false] at hl; subst hl; norm_num)
+  · simp only [c03OffInstr]; norm_num
+  · intro l hl; simp only [c03OffInstr, List.mem_cons, List.not_mem_nil, or_false] at hl; subst hl; simp only [c03OffInstr]; norm_num
+  · intro l hl; simp only [c03OffInstr, List.mem_cons, List.not_mem_nil, or_false] at hl; subst hl; simp only [c03OffInstr]; norm_num
+  · intro l hl; simp only [c03OffInstr, List.mem_cons, List.not_mem_nil, or_false] at hl; subst hl; norm_num
+  · refine ⟨?_, ?_⟩ <;> (intro l hl; simp only [c03OffSellInstr, List.mem_cons, List.not_mem_nil, or_false] at hl; subst hl; norm_num)
+  · simp only [c03OffSellInstr]; norm_num
+  · intro l hl; simp only [c03OffSellInstr, List.mem_cons, List.not_mem_nil, or_false] at hl; subst hl; simp only [c03OffSellInstr]; norm_num
+  · intro l hl; simp only [c03OffSellInstr, List.mem_cons, List.not_mem_nil, or_false] at hl; subst hl; simp only [c03OffSellInstr]; norm_num
+  · intro l hl; simp only [c03OffSellInstr, List.mem_cons, List.not_mem_nil, or_false] at hl; subst hl; norm_num
+
+/-- **D-8, positive form** (what the real code does, reproduced on /repo 155b57b: net value 105 → 105.0002000): the raw book
+    satisfies bid 0.000001 ≤ mark 0.0000016 ≤ ask 0.0000016, the market buy of 1000 is accepted, filled at 0.0000016 with
+    fee 0.0002, and the account value goes from 105 to 105.0002 -/
+theorem C03_deribit_offgrid_mark_buy_raises_value :
+    FrozenRaw c03OffState.book ∧ PosInv c03OffState ∧ NonNeg c03OffState ∧
+    (step DCtx.exact ethCfg c03OffState (c03Buy 1000)).1 = .ok (.trade [⟨16 / 10000000, 1000⟩] (2 / 10000)) ∧
+    acctValue ethCfg c03OffState = 105 ∧
+    acctValue ethCfg (step DCtx.exact ethCfg c03OffState (c03Buy 1000)).2 = 105 + 2 / 10000 ∧
+    ¬ MarkOnGrid ethCfg c03OffState.book := by
+  refine ⟨c03Off_frozenRaw.1, ⟨by simp [c03OffState, c03State], by simp [c03OffState, c03State]⟩,
+    ⟨by simp [c03OffState, c03State], by simp [c03OffState, c03State],
+      by intro _ tb h; simp [c03OffState, c03State] at h; subst h; norm_num⟩,
+    by decide +kernel, by decide +kernel, by decide +kernel, ?_⟩
+  intro h
+  exact absurd (h c03OffInstr (by simp [c03OffState])) (by decide +kernel)
+
+/-- **D-8: the full-strength statement (raw quantifier, no grid contract) is false for buy** -/
+theorem C03_deribit_fails_offgrid_mark :
+    ¬ (∀ (c : TokenCfg) (s s' : DState) (r : Req) (res : Res), 0 ≤ c.tradeFee → FrozenRaw s.book → PosInv s →
+        buy DCtx.exact c s r = (.ok res, s') → acctValue c s' ≤ acctValue c s) := by
+  intro hall
+  obtain ⟨hf, hp, _, hok, h0, h1, _⟩ := C03_deribit_offgrid_mark_buy_raises_value
+  have hc : (0 : Rat) ≤ ethCfg.tradeFee := by rw [C15_constants.1]; norm_num
+  have := hall ethCfg c03OffState (step DCtx.exact ethCfg c03OffState (c03Buy 1000)).2 _ _ hc hf hp (Prod.ext hok rfl)
+  rw [h0, h1] at this
+  norm_num at this
+
+/-- **D-8, sell side** (reproduced on /repo 155b57b: 105.001000 → 105.0012250): bid 0.0000014 ≤ mark 0.0000014 ≤ ask 0.000002,
+    1000 contracts held and valued at round(mark) = 0.000001; selling them at the bid pays 0.0014 − fee 0.000175 -/
+theorem C03_deribit_offgrid_mark_sell_raises_value :
+    FrozenRaw c03OffSellState.book ∧ PosInv c03OffSellState ∧ NonNeg c03OffSellState ∧
+    (step DCtx.exact ethCfg c03OffSellState (c03Sell 1000)).1 = .ok (.trade [⟨14 / 10000000, 1000⟩] (175 / 1000000)) ∧
+    acctValue ethCfg c03OffSellState = 105 + 1 / 1000 ∧
+    acctValue ethCfg (step DCtx.exact ethCfg c03OffSellState (c03Sell 1000)).2 = 105 + 1225 / 1000000 := by
+  refine ⟨c03Off_frozenRaw.2, ⟨by simp [c03OffSellState, c03State], ?_⟩, ⟨by simp [c03OffSellState, c03State], ?_, ?_⟩,
+    by decide +kernel, by decide +kernel, by decide +kernel⟩
+  · intro kp h; simp [c03OffSellState] at h; subst h; rfl
+  · intro kp h; simp [c03OffSellState] at h; subst h; simp only [c03OffPos]; norm_num
+  · intro _ tb h; simp [c03OffSellState, c03State] at h; subst h; norm_num
+
+/-- **D-8: the full-strength statement (raw quantifier, no grid contract) is false for sell** -/
+theorem C03_deribit_fails_offgrid_mark_sell :
+    ¬ (∀ (c : TokenCfg) (s s' : DState) (r : Req) (res : Res), 0 ≤ c.tradeFee → FrozenRaw s.book → PosInv s →
+        sell DCtx.exact c s r = (.ok res, s') → acctValue c s' ≤ acctValue c s) := by
+  intro hall
+  obtain ⟨hf, hp, _, hok, h0, h1⟩ := C03_deribit_offgrid_mark_sell_raises_value
+  have hc : (0 : Rat) ≤ ethCfg.tradeFee := by rw [C15_constants.1]; norm_num
+  have := hall ethCfg c03OffSellState (step DCtx.exact ethCfg c03OffSellState (c03Sell 1000)).2 _ _ hc hf hp (Prod.ext hok rfl)
+  rw [h0, h1] at this
+  norm_num at this
 end
 
 end Demeter
